@@ -312,9 +312,10 @@ def simple_wrapper(f):
                 break
             if t["k"] == "call":
                 ncalls += 1
-            for st in f.blocks[b].stmts:
-                if st["k"] == "assign" and st["rv"]["k"] == "agg" and st["rv"].get("agg") == "closure":
-                    ok = False
+                ci = callee_of(t)
+                if ci and ((ci.get("trait") or "").endswith("::Iterator") or ci.get("closures") and
+                           ci.get("name") not in ("map_err", "ok_or_else", "unwrap_or_else")):
+                    ok = False  # iterator pipelines / higher-order calls stay opaque (named) calls
     if ncalls > 6:
         ok = False
     _simple_cache[f.key] = ok
@@ -417,11 +418,18 @@ def is_field(t, adt_suffix, name, base=None):
 def strip_casts(t):
     """(term, narrowed?) peeling integer casts"""
     narrowed = False
-    while isinstance(t, tuple) and t and t[0] == "cast":
-        fr, to = t[1], t[2]
-        if fr in INT_BITS and to in INT_BITS and INT_BITS[to] < INT_BITS[fr]:
-            narrowed = True
-        t = t[3]
+    while isinstance(t, tuple) and t:
+        if t[0] == "cast":
+            fr, to = t[1], t[2]
+            if fr in INT_BITS and to in INT_BITS and INT_BITS[to] < INT_BITS[fr]:
+                narrowed = True
+            t = t[3]
+        elif t[0] in ("ok", "some") and isinstance(t[1], tuple) and t[1] and t[1][0] == "call" and \
+                t[1][1].rsplit("::", 1)[-1] in ("try_from", "try_into") and len(t[1][2]) == 1:
+            # checked integer conversion: the success value equals the operand (overflow is an Err, not a wrap)
+            t = t[1][2][0]
+        else:
+            break
     return t, narrowed
 
 
